@@ -120,7 +120,7 @@ fn check_lib(c: &LibCase, sink: &Sink) {
         Outcome::Panic { message } => sink.fail(format!("C15:panic:{}", first_line(message)), describe(message), input.clone()),
     }
     sink.nontrivial();
-    if c.tree.len() == 3 && c.diff.as_ref().is_some_and(|d| d.len() == 1) && c.globs.len() == 1 {
+    if c.tree.len() >= 2 && c.diff.as_ref().is_some_and(|d| d.len() == 1) && c.globs.len() == 1 {
         sink.sample(|| json!({"input": input, "expected_scope": expected}));
     }
 }
